@@ -12,8 +12,15 @@ func init() {
 	ops["cleanpath"] = func(a []string) []string {
 		return []string{hx([]byte(utils.CleanPath(string(unhx(a[0])))))}
 	}
+	ops["uripath"] = func(a []string) []string {
+		u := usedURI()
+		u.Parse(nil, unhx(a[0]))
+		return []string{hx(u.Path())}
+	}
 	props["C07"] = genC07
 }
+
+var targetTokens = [][]byte{[]byte("/"), []byte("."), []byte("a"), []byte(":"), []byte("%2e"), []byte("%2f"), []byte("?"), []byte("#"), []byte("//"), []byte("http"), []byte("\\"), []byte("@")}
 
 var pathTokens = [][]byte{[]byte("/"), []byte("."), []byte("a"), []byte("%2e"), []byte("%2f"), []byte("%"), []byte("\\")}
 
@@ -27,6 +34,12 @@ func genC07(tier string, rng *Rng) {
 		runOp([]string{"normpath", s})
 		runOp([]string{"cleanpath", s})
 	})
+	// whole request targets (origin form, absolute form, scheme-less, "x:/..." look-alikes of drive letters)
+	tl := 4
+	if tier == "thorough" {
+		tl = 5
+	}
+	enumStrings(targetTokens, tl, func(b []byte) { runOp([]string{"uripath", hx(b)}) })
 	alpha := []byte("//..ab%2eEfF5c\\ ?#+")
 	// long paths around the 128-byte stack buffer of CleanPath (and the in-place rewriting of normalizePath):
 	// a prefix that needs rewriting, padded to every length 100..160 and a few larger ones
